@@ -182,6 +182,31 @@ def one_program(ctx, prog, rng):
     except parser_errors() as e:
         ctx.violation('script-not-merge-of-statements', f'a single statement of an accepted script was rejected: {type(e).__name__}: {str(e)[:200]}', case)
         return
+    # ... and through the parser's own per-statement door, parse_equation() (fenced blocks are not equations: parse_model for those)
+    merged, verb = {}, []
+    try:
+        from fsic.parser import parse_equation
+        for st in prog.stmts:
+            if isinstance(st, gen.Block):
+                one = fsic.parse_model(gen.render_block(st, 'script'))
+            else:
+                one = parse_equation(gen.render_eq(st, 'script'))
+            for s in one:
+                if s.name is None:
+                    verb.append(s)
+                elif s.name in merged:
+                    merged[s.name] = merged[s.name].combine(s)
+                else:
+                    merged[s.name] = s
+        ctx.count('merges_compared')
+        ctx.count('parse_equation_merges_compared')
+        if list(merged.values()) + verb != base:
+            diff = [(a, b) for a, b in zip(list(merged.values()) + verb, base) if a != b][:1]
+            ctx.violation('script-not-merge-of-statements', f'parse_model(script) differs from merging parse_equation(statement) over its statements for {base_script!r}: {str(diff)[:300]}', case)
+            return
+    except parser_errors() as e:
+        ctx.violation('script-not-merge-of-statements', f'parse_equation() rejected a single statement of an accepted script: {type(e).__name__}: {str(e)[:200]}', case)
+        return
     # ---- the normal form is a fixed point -----------------------------------------------------------
     named_lhs = {e.lhs.name for e in prog.equations() if e.has(gen.Named) or e.has(gen.Verb)}
     # ... whatever layout the normal form was produced from: the canonical rendering and the broken-inside-parentheses ones
